@@ -437,11 +437,34 @@ Definition cnf_s (env : senv) (c : list (list guard_clause)) : sres status := an
 
 Definition file_env : senv := [(doc, rf_lets prog)].
 
+(* a type block `AWS::X::Y [when conds] { body }`: the parser turns the type name into the selection
+   `Resources.*[ Type == "AWS::X::Y" ]` (q); the body is run on every selected resource and all of them have to pass.
+   No resource of the type: SKIP.  A selection that cannot be made at all (no `Resources`, an empty `Resources`, a
+   resource that is not a map) is an error in the implementation (known finding C14-type-block-unresolved-selection:
+   the documentation reads it as "no resources of this type"); the specification records what the code does. *)
+Definition type_block_s (env : senv) (conds : option when_conditions) (b : gblock) (q : query) : sres status :=
+  go <~ match conds with
+        | Some c => st <~ and_body (when_clause_s env) c ;; SOk (status_eqb st PASS)
+        | None => SOk true
+        end ;;
+  if go then
+    vals <~ query_s env q ;;
+    match vals with
+    | [] => SOk SKIP
+    | _ =>
+        sts <~ smap (fun x => match x with
+                              | SMiss => SUndef
+                              | SV _ v => block_s ((v, []) :: env) b
+                              end) vals ;;
+        SOk (body_status sts)
+    end
+  else SOk SKIP.
+
 Definition rule_clause_s (env : senv) (c : rule_clause) : sres status :=
   match c with
   | RClause g => clause_s env g
   | RWhenBlock conds b => when_block_s env conds b
-  | RTypeBlock _ _ _ _ => SOut
+  | RTypeBlock _ conds b q => type_block_s env conds b q
   end.
 
 Definition rule_eval_s (x : rule) : sres status :=
